@@ -78,13 +78,28 @@ fn check_output(output: &Output) -> Result<()> {
     Ok(())
 }
 
+/// Places the client-supplied `suffix` below `path`, resolving it the way a process whose root
+/// directory is `path` would: an absolute suffix starts again from `path`, `.` is skipped and
+/// `..` steps back but never above `path`. The result is `path` followed by plain file names
+/// only, so creating or opening it cannot reach anything outside `path` (as long as nothing
+/// below `path` is a symlink).
 fn join_suffix<P: AsRef<Path>>(path: &Path, suffix: P) -> PathBuf {
-    let suffixpath = suffix.as_ref();
-    let mut components = suffixpath.components();
-    if suffixpath.has_root() {
-        assert_eq!(components.next(), Some(path::Component::RootDir));
+    let mut names = vec![];
+    for component in suffix.as_ref().components() {
+        match component {
+            path::Component::Prefix(_) | path::Component::RootDir => names.clear(),
+            path::Component::CurDir => {}
+            path::Component::ParentDir => {
+                names.pop();
+            }
+            path::Component::Normal(name) => names.push(name),
+        }
     }
-    path.join(components)
+    let mut joined = path.to_owned();
+    for name in names {
+        joined.push(name);
+    }
+    joined
 }
 
 #[derive(Debug)]
